@@ -78,7 +78,9 @@ var prop = vh.Define("C03", "roundtrip", func(c Case, r *vh.R) {
 	if c.ReadMode > 0 {
 		r.Class("plain-reader")
 	}
-	rb, err := bundle.Read(gen.Source(x0, c.ReadMode))
+	rsrc := gen.Source(x0, c.ReadMode)
+	rb, err := bundle.Read(rsrc)
+	gen.Recycle(rsrc)
 	if err != nil {
 		r.Failf("read-error", "Read rejects the writer's output: %v", err)
 		return
@@ -101,7 +103,9 @@ var prop = vh.Define("C03", "roundtrip", func(c Case, r *vh.R) {
 				return
 			}
 			xs = append(xs, append([]byte{}, wb.Bytes()...))
-			nb, err := bundle.Read(gen.Source(wb.Bytes(), gen.SourceModeOf(wb.Bytes())))
+			nsrc := gen.Source(wb.Bytes(), gen.SourceModeOf(wb.Bytes()))
+			nb, err := bundle.Read(nsrc)
+			gen.Recycle(nsrc)
 			if err != nil {
 				r.Failf("reread-error", "cycle %d: Read rejects re-serialised bundle: %v", i+1, err)
 				return
